@@ -254,12 +254,44 @@ func TestExh_C07(t *testing.T) {
 			c.Plugins[1].Fault = ft
 			run(c)
 		}
-		for _, hold := range []int{50, 200} {
+		for _, hold := range []int{50, 150} {
 			for _, holder := range []int{10, 30} {
 				c := mk(q.req, q.event, "", 0, false)
 				c.Plugins[1].Fault = Fault{Kind: "updrop", HoldIdx: holder, HoldMs: hold}
 				run(c)
 			}
+		}
+	}
+	// the runtime's own (pass-through) ttRPC options on the plugin connections: they must leave
+	// everything as it is, in particular what depends on the request timeout and the send watchdog
+	for _, q := range reqs {
+		ros := []string{"client-interceptor", "client-chain", "server-interceptor", "client+server"}
+		rfs := []Fault{
+			{Kind: "hang"},
+			{Kind: "cut", Dir: "r2p", K: 12, StallMs: -1},
+			{Kind: "close", When: "during"},
+			{Kind: "cut", Dir: "p2r", K: 20},
+			{Kind: "error", ErrText: "c07 veto by plugin 20", ErrForm: "status", ErrCode: 4, Again: true},
+		}
+		if !ev.Thorough() {
+			ros, rfs = ros[:2], rfs[:2] // the client-side options against the two faults that need the timeout
+		}
+		for _, ro := range ros {
+			for _, ft := range rfs {
+				c := mk(q.req, q.event, ft.Dir, ft.K, false)
+				c.RtOpts = ro
+				c.Plugins[1].Fault = ft
+				if ft.StallMs < 0 {
+					c.ReqSize = "1m"
+				}
+				run(c)
+			}
+			// two plugins running into the timeout, healthy ones between and behind them
+			c := mk(q.req, q.event, "", 0, false)
+			c.RtOpts = ro
+			c.Plugins = []PluginSpec{{Idx: 10, Fault: Fault{Kind: "hang"}}, {Idx: 20, Fault: Fault{Kind: "none"}},
+				{Idx: 30, Fault: Fault{Kind: "hang"}}, {Idx: 40, Fault: Fault{Kind: "none"}}}
+			run(c)
 		}
 	}
 	// a protocol break answered to each of the five relays (every relay has its own copy of the
